@@ -359,6 +359,13 @@ class Explorer:
         return repr(self.spec.canon_extra(world)) + repr(sorted(world.finished)) + repr(world.exception)
 
 
+def site(where):
+    """'file.py:function' of the innermost frame (no line number: violation keys must survive unrelated edits)."""
+    last = where[-1] if where else "?"
+    parts = last.split(":")
+    return parts[0] + ":" + parts[-1] if len(parts) >= 3 else last
+
+
 def unroll(hist):
     out = []
     while hist is not None:
